@@ -535,15 +535,13 @@ class BlockUploadStream(io.RawIOBase):
         try:
             response = self.sdo_client.read_response()
         except SdoCommunicationError:
+            response = None
+        if response is not None and response[0] & 0x7F == self._ackseq + 1:
+            self._ackseq += 1
+        else:
+            # Segment missing or wrong sequence number
             response = self._retransmit()
         res_command, = struct.unpack_from("B", response)
-        seqno = res_command & 0x7F
-        if seqno == self._ackseq + 1:
-            self._ackseq = seqno
-        else:
-            # Wrong sequence number
-            response = self._retransmit()
-            res_command, = struct.unpack_from("B", response)
         if self._ackseq >= self.blksize or res_command & NO_MORE_BLOCKS:
             self._ack_block()
         if res_command & NO_MORE_BLOCKS:
@@ -590,8 +588,9 @@ class BlockUploadStream(io.RawIOBase):
         request[1] = self._ackseq
         request[2] = self.blksize
         self.sdo_client.send_request(request)
-        if self._ackseq == self.blksize:
-            self._ackseq = 0
+        # The server numbers the segments of the next sub-block from 1 again,
+        # also when it has to repeat segments (ackseq < number sent)
+        self._ackseq = 0
 
     def _end_upload(self):
         try:
